@@ -172,7 +172,13 @@ def type_hint(ty):
         return "v", ty[4:]
     if ty.startswith("opt:"):
         return "v", ty[4:]        # Optional[Class]: may be None (param_facts does not assume non-None)
+    if ty.startswith("maybe:"):
+        return type_hint(ty[6:])  # attribute that may be absent: the field holds <deleted_attr> then
     return "v", ty   # list/set/dict/deque/fn/str/<ClassName>
+
+
+def HAS_MAYBE_FIELDS():
+    return any(t.startswith("maybe:") for c in CLASSES.values() for t in c.fields.values())
 
 
 class Exec:
@@ -585,7 +591,7 @@ def _patch_engine():
         if meth is None:
             raise OutOfSubset(f"expression {type(node).__name__}: {ast.unparse(node)[:60]}")
         r = meth(node, st, m)
-        if r.kind == "v" and r.hint is None and isinstance(node, (ast.Subscript, ast.Call)):
+        if r.kind == "v" and r.hint is None and isinstance(node, (ast.Subscript, ast.Call, ast.Attribute)):
             ty = self.types.get("expr:" + ast.unparse(node))
             if ty:
                 kind, hint = type_hint(ty)
@@ -688,6 +694,9 @@ def _patch_engine():
             raise OutOfSubset(f"property {attr} in pure position")
         kind, hint = type_hint(ty)
         t = self.hget(st, attr, base.t)
+        if ty.startswith("maybe:") and not m.spec and m.checks is not None:
+            # reading an absent attribute raises AttributeError (code position only; contracts use hasattr())
+            m.checks.append((t != L.sentinel("deleted_attr"), "AttributeError", None))
         if kind == "int":
             return SV("int", t)
         if kind == "bool":
@@ -1122,6 +1131,12 @@ def _patch_engine():
     def sf_hasattr(self, node, st, m):
         a = self.pev(node.args[0], st, m)
         nm = self.pev(node.args[1], st, m)
+        if nm.kind == "py" and isinstance(nm.py, str) and a.kind == "v" and a.hint in CLASSES:
+            fty = self.lookup_field_type(CLASSES[a.hint], nm.py)
+            if fty is not None and fty.startswith("maybe:"):
+                return sv_bool(self.hget(st, nm.py, a.t) != L.sentinel("deleted_attr"))
+            if fty is not None:
+                return sv_bool(True)
         if nm.kind == "py" and nm.py == "__len__":
             if a.kind in ("seq", "tuple", "set"):
                 return sv_bool(True)
@@ -2025,6 +2040,14 @@ def _patch_exec():
             # del obj.attr : the field holds the distinguished value <deleted> afterwards (AttributeError of a missing
             # attribute is not modelled)
             tgt = s.targets[0]
+            if self.is_pure(tgt.value, st):
+                b = self.pev(tgt.value, st, Mode(False, None, None))
+                fty = self.lookup_field_type(CLASSES[b.hint], tgt.attr) if b.kind == "v" and b.hint in CLASSES else None
+                if fty is not None and fty.startswith("maybe:"):
+                    # del of an attribute that may be absent: AttributeError when it is
+                    cur = self.hget(st, tgt.attr, b.t)
+                    return self.branch_checks([(cur != L.sentinel("deleted_attr"), "AttributeError", s)], st, ctx,
+                                              lambda st2: self.assign(tgt, sv_v(L.sentinel("deleted_attr"), "sentinel"), st2, ctx, ctx.k))
             self.assumptions.add("`del obj.attr` is modelled as storing a distinguished <deleted> value; AttributeError when the attribute is already missing is not modelled")
             return self.assign(tgt, sv_v(L.sentinel("deleted_attr"), "sentinel"), st, ctx, ctx.k)
         if len(s.targets) != 1 or not isinstance(s.targets[0], ast.Subscript):
@@ -2330,7 +2353,7 @@ def _patch_loops():
                                 fnc = FUNCS[CLASSES[r.hint].methods[extra.func.attr]]
                         except Exception:
                             pass
-                    if tgt and (tgt.startswith("havoc:") or tgt in ("ddset", "newdeque")):
+                    if tgt and (tgt.startswith("havoc:") or tgt.startswith("newobj:") or tgt in ("ddset", "newdeque")):
                         continue
                     if fnc is None or any(mm == "*" for mm in fnc.modifies):
                         raise OutOfSubset(f"loop body calls {txt} whose frame is unknown")
@@ -2723,13 +2746,22 @@ def _patch_calls():
                 if recv_node is not None:
                     ast.copy_location(recv_node, node)
                     ast.fix_missing_locations(recv_node)
-                return self.ev_contract_call(fnc, recv_node, call, st, ctx, k)
+                k2 = k
+                if spec.get("returns"):
+                    # the call site knows more about the result's class than the callee's (generic) contract does
+                    k2 = lambda r, st9: k(SV("v", self.to_v(r), spec["returns"]), st9)
+                return self.ev_contract_call(fnc, recv_node, call, st, ctx, k2)
             if tgt == "noop":
                 # logging / event hooks: arguments are not evaluated (assumed free of side effects on the modelled state)
                 return k(NONE, st)
             if tgt.startswith("havoc:"):
                 # unknown side-effect-free-on-modelled-state call returning an unconstrained value of the given type
-                return self.ev_list(node.args, st, ctx, lambda svs, st2: k(self.fresh_sv("r", tgt[6:]), st2))
+                def hv(svs, st2):
+                    r = self.fresh_sv("r", tgt[6:])
+                    if r.kind == "v" and HAS_MAYBE_FIELDS():
+                        st2 = st2.assume(r.t != L.sentinel("deleted_attr"))
+                    k(r, st2)
+                return self.ev_list(node.args, st, ctx, hv)
             if tgt == "tuple":
                 return self.ev_list(node.args, st, ctx, lambda svs, st2: k(SV("tuple", items=list(svs)), st2))
             if tgt == "newdeque":
@@ -2737,6 +2769,14 @@ def _patch_calls():
                     r, st2 = self.alloc_obj(st1, "deque", "dq")
                     k(r, self.hset(st2, "$seq", r.t, self.as_seq(svs[0], st1) if svs else L.sempty))
                 return self.ev_list(node.args, st, ctx, mk)
+            if tgt.startswith("newobj:"):
+                # a fresh instance of a contract class whose may-be-absent attributes are all absent (e.g. threading.local())
+                cn = tgt[7:]
+                r, st2 = self.alloc_obj(st, cn, "obj")
+                for fname, fty in CLASSES[cn].fields.items():
+                    if fty.startswith("maybe:"):
+                        st2 = self.hset(st2, fname, r.t, L.sentinel("deleted_attr"))
+                return k(r, st2)
             if tgt == "ddset":
                 r, st2 = self.alloc_obj(st, "ddset", "dd")
                 st2 = self.hset(st2, "$dd", r.t, K(V, K(V, False)))
@@ -3273,6 +3313,8 @@ def _patch_run():
         fs = []
         if sv.kind != "v":
             return fs
+        if HAS_MAYBE_FIELDS():
+            fs.append(sv.t != L.sentinel("deleted_attr"))     # <absent attribute> is not a program value
         if isinstance(ty, str) and ty.startswith("opt:"):
             inner = self.param_facts(name, sv, ty[4:], st)
             return [Or(sv.t == L.None_, And(*inner))] if inner else []
